@@ -9,9 +9,10 @@ package main
 // store, and both requests must have been answered.
 
 import (
-	"os"
 	"fmt"
 	"github.com/tinode/chat/server/auth"
+	"github.com/tinode/chat/server/zzverif/vatomic"
+	"os"
 	"strings"
 	"testing"
 	"time"
@@ -169,7 +170,12 @@ func vfAtLoadRun(r *vfev.Report, nbp *int, shard, shards int, target string, nop
 				}
 				memdb.OnReturn = func(name string) { event("after store call " + name) }
 				vsched.OnPoint = func(kind string) { event(kind) }
-				restore := func() { memdb.OnCall, memdb.OnReturn, vsched.OnPoint = prev, nil, nil }
+				vatomic.OnOp = func(write bool) {
+					if !write {
+						event("atomic load") // stores and read-modify-writes are scheduling points already
+					}
+				}
+				restore := func() { memdb.OnCall, memdb.OnReturn, vsched.OnPoint, vatomic.OnOp = prev, nil, nil, nil }
 				vsched.OnKill(restore)
 				subCode, _ = t.cl[loader].Req(`{"sub":{"id":"$ID","topic":"%s"}}`, addr)
 				restore()
@@ -356,7 +362,12 @@ func vfAtEnd(prop, part string) {
 						}
 						memdb.OnReturn = func(name string) { event("after store call " + name) }
 						vsched.OnPoint = func(kind string) { event(kind) }
-						restore := func() { memdb.OnCall, memdb.OnReturn, vsched.OnPoint = prev, nil, nil }
+						vatomic.OnOp = func(write bool) {
+							if !write {
+								event("atomic load") // stores and read-modify-writes are scheduling points already
+							}
+						}
+						restore := func() { memdb.OnCall, memdb.OnReturn, vsched.OnPoint, vatomic.OnOp = prev, nil, nil, nil }
 						vsched.OnKill(restore)
 						if what == "unload" {
 							vsched.Advance(idleMasterTopicTimeout + 2*time.Second)
